@@ -180,7 +180,7 @@ func runHandler(c HCase) (msg string, nontrivial bool) {
 		var resets []string
 		queryEvents := map[string][]string{} // rname -> subjects
 		events := map[string][]fakeconn.Entry{}
-		for _, e := range conn.Log()[mark:] {
+		for _, e := range conn.LogFrom(mark) {
 			if e.Kind != "pub" {
 				continue
 			}
